@@ -68,8 +68,8 @@ pub enum Op {
     /// drop the receiver of an earlier dispatch of this thread (before, while or after it runs)
     Drop { id: u32 },
     Pause { us: u64 },
-    /// dispatch the gate tasks `ids` one at a time, each time waiting until its closure reports
-    /// that it has parked a (further) worker: afterwards every worker thread is blocked
+    /// dispatch gate tasks from `ids` one at a time until every worker thread has reported that it
+    /// is parked on the gate (a gate task that does not park anybody soon is followed by the next)
     Park { ids: Vec<u32> },
     /// open the gate
     Open,
@@ -114,6 +114,13 @@ impl Program {
 }
 
 pub const MAX_TASKS: u64 = 6;
+
+/// Gate tasks that may be needed to park `nw` workers. In concurrent mode flume can hand a gate
+/// closure to the pending `recv_async` of a worker that is already parked (it then waits there
+/// until the gate opens); every parked worker can swallow one, so 2 * nw - 1 always suffice.
+pub fn gate_tasks_needed(nw: usize) -> usize {
+    2 * nw - 1
+}
 
 fn gen_body(
     r: &mut Rng,
@@ -237,10 +244,13 @@ pub fn generate(seed: u64, iour_ok: bool) -> Program {
     // Fire-and-forget programs with the workers parked on a gate: the receivers are dropped while
     // no worker can possibly have reached the closures, so the drop certainly precedes the start.
     if fault == "none" && r.pct(22) {
-        let npay = r.range(1, (MAX_TASKS - nw as u64).min(3));
+        let ngates = gate_tasks_needed(nw);
+        let npay = r
+            .range(1, (MAX_TASKS - ngates as u64).min(3))
+            .min(tasks.len() as u64);
         tasks.truncate(npay as usize);
         let mut ops = Vec::new();
-        let gate_ids: Vec<u32> = (0..nw as u32).map(|k| npay as u32 + 1 + k).collect();
+        let gate_ids: Vec<u32> = (0..ngates as u32).map(|k| npay as u32 + 1 + k).collect();
         for g in &gate_ids {
             tasks.push(TaskSpec {
                 id: *g,
@@ -448,7 +458,9 @@ pub fn scenario_pool1(concurrent: bool) -> Program {
 /// called at once. Every one of them has to be started (sequential mode: finished) all the same.
 pub fn scenario_forget(nw: usize, concurrent: bool, blocking: bool) -> Program {
     let npay = 3u32;
-    let gate_ids: Vec<u32> = (0..nw as u32).map(|k| npay + 1 + k).collect();
+    let gate_ids: Vec<u32> = (0..gate_tasks_needed(nw) as u32)
+        .map(|k| npay + 1 + k)
+        .collect();
     let mut tasks = Vec::new();
     let mut ops = vec![Op::Park {
         ids: gate_ids.clone(),
